@@ -46,6 +46,11 @@ MUTANTS = [
      "            _res = await execute(\n                self._schema,\n                document,\n                self._build_response,\n                payload,\n                context,\n                variables,\n                operation_name,\n            )\n            yield _res\n            if _res.get(\"data\") is None and _res.get(\"errors\"):\n                return"),
     ("subscription-ignores-payload", ["C14"], "tartiflette/engine.py",
      "                self._build_response,\n                payload,\n", "                self._build_response,\n                initial_value,\n"),
+    ("registry-bakes-every-schemas-resolvers", ["C17"], "tartiflette/schema/registry.py",
+     "        schema_info = SchemaRegistry._schemas[schema.name]\n        for object_id in _SCHEMA_OBJECT_IDS:\n            for obj in schema_info.get(object_id, {}).values():\n                obj.bake(schema)",
+     "        for schema_info in list(SchemaRegistry._schemas.values()):\n            for object_id in _SCHEMA_OBJECT_IDS:\n                for obj in schema_info.get(object_id, {}).values():\n                    try:\n                        obj.bake(schema)\n                    except Exception:  # pylint: disable=broad-except\n                        pass"),
+    ("type-resolver-registered-under-default-name", ["C17"], "tartiflette/resolver/type_resolver.py",
+     "        SchemaRegistry.register_type_resolver(self._schema_name, self)", "        SchemaRegistry.register_type_resolver(\"default\", self)"),
     ("include-inverted", ["C01"], "tartiflette/directive/builtins/include.py",
      'if not directive_args["if"]:', 'if directive_args["if"] is None:'),
 ]
@@ -83,7 +88,7 @@ def run_mutant(m, runs=None):
                 cmd += ["--runs", str(runs)]
             p = subprocess.run(cmd, capture_output=True, text=True, env=env, timeout=900)
             lines = [l for l in p.stdout.splitlines() if l.startswith("VIOLATION") or l.startswith("  clause=")]
-            out["checks"][cid] = {"caught": p.returncode == 1, "exit": p.returncode, "wall_s": round(time.time() - t0, 1),
+            out["checks"][cid] = {"caught": p.returncode in (1, 2) and any(l.startswith("VIOLATION") for l in p.stdout.splitlines()), "exit": p.returncode, "wall_s": round(time.time() - t0, 1),
                                   "first": lines[:2] and lines[1][:300] if len(lines) > 1 else (p.stdout[-300:] + p.stderr[-300:])}
     finally:
         shutil.rmtree(scratch, ignore_errors=True)
